@@ -7,6 +7,8 @@
                (2 v)              Matrix::from_scalar
                (3 (v ...))        Matrix::row
                (4 (v ...))        Matrix::column
+               (5 r c)            Matrix::from_fn((r, c), |(i, j)| 100 + 10 * i + j)
+               (6 r c v)          Matrix::empty(v, (r, c))
        op:     (0 row v)          insert_row
                (1 row (v ...))    insert_row_with(row, values.into_iter())
                (2 col v)          insert_column
@@ -34,6 +36,7 @@
 From Coq Require Import List ZArith NArith Bool.
 From EasyML Require Import Base.Sx Model.Matrix.
 Import ListNotations.
+Local Open Scope N_scope.
 
 Fixpoint dslice_fuel (fuel : nat) (s : sx) : option slice :=
   match fuel with
@@ -59,7 +62,7 @@ Fixpoint dslice_fuel (fuel : nat) (s : sx) : option slice :=
       | _ => None
       end
   end.
-Definition dslice : sx -> option slice := dslice_fuel 12.
+Definition dslice : sx -> option slice := dslice_fuel 12%nat.
 
 Definition index_term (k : Z) (x : Z) (i j : N) : Z :=
   (x + k * (10 * Z.of_N i + Z.of_N j + 1))%Z.
@@ -92,6 +95,18 @@ Definition dstart (s : sx) : option (outcome (matrix Z)) :=
   | SL [SZ 2%Z; v] => option_map (fun v => Ok (from_scalar v)) (dZ v)
   | SL [SZ 3%Z; vs] => option_map row_ctor (dlist dZ vs)
   | SL [SZ 4%Z; vs] => option_map column_ctor (dlist dZ vs)
+  | SL [SZ 5%Z; r; c] => match dN r, dN c with
+                         | Some r, Some c =>
+                             if (r <=? 64) && (c <=? 64)
+                             then Some (from_fn (r, c) (fun i j => (100 + 10 * Z.of_N i + Z.of_N j)%Z))
+                             else None
+                         | _, _ => None
+                         end
+  | SL [SZ 6%Z; r; c; v] => match dN r, dN c, dZ v with
+                            | Some r, Some c, Some v =>
+                                if (r <=? 64) && (c <=? 64) then Some (empty_ctor v (r, c)) else None
+                            | _, _, _ => None
+                            end
   | _ => None
   end.
 
